@@ -6,8 +6,9 @@
   variables and element tokens, every function written after the Rust text.
   `compute_capacity`, the lock targets of both `==` implementations and the
   statement order of `concat` are regenerated from src/value/list.rs on every
-  run (Generated/Capacity, Generated/ListLocks), so the theorems below are
-  re-checked against what the source says now.
+  run (Generated/Capacity, Generated/ListLocks), and so is the body of the
+  `join` binding of src/runtime/basic.rs (Generated/ListJoin), so the theorems
+  below are re-checked against what the source says now.
 
   Quantifier: every theorem is for ALL element sizes `sz` (0 = zero-sized),
   ALL numbers of handle variables `n`, ALL operation sequences `ops` (any
@@ -405,6 +406,92 @@ theorem nested_eq_terminates (sz n : Nat) (ops : List Op) (typed : Bool)
 
 example : (eqN 8 true (runSt 8 (St.init 3) [.fromVec 0 [1], .fromVec 1 [2], .fromVec 2 [2]]) [0, 1] [0, 2]).1
     = .bool true := by decide
+
+/-! ### T5 — `join` on a `List[String]` is `[String]::join`
+
+The body of the `join` binding is regenerated from `src/runtime/basic.rs`
+(Generated/ListJoin, an executable function from the element strings and the
+separator to the result); strings are their UTF-8 bytes. All statements are for
+EVERY list of strings — any number of empty strings in any position, the empty
+list, a singleton — and EVERY separator (empty, multi-byte, equal to an
+element). -/
+
+/-- T5 `join_binding_is_slice_join` — tie obligation: whatever the source's body
+    of `join` is on this run, for all element strings and all separators it
+    returns the elements in order with the separator between every two
+    neighbours (`joinSpec`). -/
+theorem join_binding_is_slice_join (l : List Str) (sep : Str) :
+    Gen.ListJoin.join_body l sep = joinSpec l sep :=
+  join_body_eq l sep
+
+example : Gen.ListJoin.join_body [[], [98]] [44] = [44, 98] := by decide
+
+/-- what `joinSpec` is: nothing for no element, the element for one, and from
+    two elements on the first, the separator and the join of the rest — the
+    separator is never dropped because an element (or everything so far) is
+    empty. -/
+theorem join_unfolds (x y : Str) (r : List Str) (sep : Str) :
+    joinSpec [] sep = [] ∧ joinSpec [x] sep = x ∧
+      joinSpec (x :: y :: r) sep = x ++ (sep ++ joinSpec (y :: r) sep) :=
+  ⟨joinSpec_nil sep, joinSpec_single x sep, joinSpec_cons_cons x y r sep⟩
+
+example : joinSpec [[], []] [45] = [45] ∧ joinSpec [[], [], []] [45] = [45, 45] := by decide
+
+/-- every separator is there: the result has the bytes of all elements plus
+    exactly `len - 1` separators -/
+theorem join_length (l : List Str) (sep : Str) :
+    (Gen.ListJoin.join_body l sep).length = totalLen l + (l.length - 1) * sep.length := by
+  rw [join_body_eq]; exact joinSpec_length l sep
+
+example : (Gen.ListJoin.join_body [[], [], [120]] [226, 134, 146]).length = 7 := by decide
+
+/-- the empty separator concatenates; joining splits at every inner boundary -/
+theorem join_empty_separator_and_split (a b : List Str) (sep : Str) (ha : a ≠ []) (hb : b ≠ []) :
+    Gen.ListJoin.join_body a [] = a.flatten ∧
+      Gen.ListJoin.join_body (a ++ b) sep
+        = Gen.ListJoin.join_body a sep ++ (sep ++ Gen.ListJoin.join_body b sep) := by
+  simp only [join_body_eq]
+  exact ⟨joinSpec_empty_sep a, joinSpec_append a b sep ha hb⟩
+
+example : Gen.ListJoin.join_body ([[97], []] ++ [[], [98]]) [44] = [97, 44] ++ ([44] ++ [44, 98]) := by decide
+
+/-- `join` from any reachable state, on any handle of a live list: the result
+    is `[String]::join` of the elements' strings, the store is as before (no
+    lock left held, nothing cloned for good). -/
+theorem join_from_any_state (sz n : Nat) (ops : List Op) (h a : Nat) (l : RawList) (sep : Str)
+    (hs : (runSt sz (St.init n) ops).slots[h]? = some (some a))
+    (hl : (runSt sz (St.init n) ops).getAlloc a = some l) :
+    step sz (runSt sz (St.init n) ops) (.join h sep)
+      = (.str (joinSpec (l.elems.map elemStr) sep), runSt sz (St.init n) ops) := by
+  have inv := Inv_runSt ops (Inv_init sz n)
+  have hw := (inv.raw a l hl).1.wf
+  have : stepE sz (runSt sz (St.init n) ops) (.join h sep)
+      = .ok (.str (joinSpec (l.elems.map elemStr) sep), runSt sz (St.init n) ops) := by
+    refine withLock_read' inv hs hl ?_
+    simp only [readAll_eq hw, join_body_eq]
+  simp only [step, this]
+
+example : (step 8 (runSt 8 (St.init 1) [.fromVec 0 [0, 1, 0, 2]]) (.join 0 [44])).1
+    = .str [44, 115, 49, 44, 44, 115] := by decide
+
+/-- the strings the element values of a `List[String]` stand for (empty, prefix
+    of another, multi-byte, differing in case, … and `"s<v>"`) are pairwise
+    distinct: comparing element values in the model is comparing the strings -/
+theorem string_elements_distinct (v w : Nat) : elemStr v = elemStr w ↔ v = w :=
+  ⟨elemStr_injective, fun h => h ▸ rfl⟩
+
+example : elemStr 0 = [] ∧ elemStr 2 = [115] ∧ elemStr 12 = [115, 49, 50] := by decide
+
+/-- tie obligation: every `as` cast in the bodies of the list bindings of
+    `src/runtime/basic.rs` (the script side passes `u64`, the list API takes and
+    returns `usize`) goes to `u64` or `usize` — no index, length or capacity is
+    narrowed on its way between a script and the list (regenerated:
+    `Gen.ListJoin.bindingCasts`). -/
+theorem adapters_do_not_narrow :
+    ∀ c ∈ Gen.ListJoin.bindingCasts, c.2.2.2.keepsIndices = true := by
+  decide
+
+example : CastTy.keepsIndices .u32 = false ∧ CastTy.keepsIndices .i64 = false ∧ CastTy.keepsIndices .usize = true := by decide
 
 /-! ### the defect of the pinned tree -/
 
